@@ -188,7 +188,10 @@ impl PrometheusBuilder {
     {
         use std::str::FromStr;
 
+        // Accept both forms the documentation promises: a subnet in CIDR notation, or a plain IP
+        // address, which stands for the single-host network containing only that address.
         let address = IpNet::from_str(address.as_ref())
+            .or_else(|e| IpAddr::from_str(address.as_ref()).map(IpNet::from).map_err(|_| e))
             .map_err(|e| BuildError::InvalidAllowlistAddress(e.to_string()))?;
         self.allowed_addresses.get_or_insert(vec![]).push(address);
 
